@@ -629,7 +629,13 @@ func (t *ComparableTree) NewScanner(key Comparable) *ComparableCursor {
 		n = child
 	}
 	ln := n.(*comparableLeafNode)
-	return newComparableCursor(ln, comparableSearchGreaterThanOrEqualTo(key, ln.runts))
+	index := comparableSearchGreaterThanOrEqualTo(key, ln.runts)
+	if index < len(ln.runts) && ln.runts[index].Less(key) {
+		// The search never returns len(ln.runts); when even the final key of
+		// this leaf is smaller than key, start after it.
+		index++
+	}
+	return newComparableCursor(ln, index)
 }
 
 // ComparableCursor is used to enumerate key-value pairs from the tree in
